@@ -127,6 +127,16 @@ func c43DrawCase(rt *rapid.T) *c43Case {
 		kdf.salt = rapid.SliceOfN(rapid.Byte(), 16, 40).Draw(rt, "salt")
 	}
 	c.params = fmt.Sprintf("memory=%d parallelism=%d iterations=%d saltlen=%d", mem, par, it, len(kdf.salt))
+	if rapid.IntRange(0, 2).Draw(rt, "paramsReused") == 0 {
+		// the caller's parameter object was used before, for another key under another passphrase
+		// (it then carries that encryption's salt): this encryption must still be under THIS passphrase
+		other := append(c43DrawPassphrase(rt), 'x')
+		if _, err := EncryptAndMarshalSigningPrivateKey(c.curve, c.key, other, kdf); err != nil {
+			rt.Fatalf("encrypting a %s key failed: %v (%s)", c.curve, err, c.params)
+		}
+		c.params += " params-object-used-before-with-another-passphrase"
+		vk.Label("C43", "kdf-params-object-reused")
+	}
 	b, err := EncryptAndMarshalSigningPrivateKey(c.curve, c.key, c.pass, kdf)
 	if err != nil {
 		rt.Fatalf("encrypting a %s key failed: %v (%s)", c.curve, err, c.params)
